@@ -23,6 +23,20 @@ INFO = {
  "C18-prune-under-output": ("C18", "document(): sub-directories whose path starts with abspath(output) are pruned when -o is given", "-r with the output directory an ancestor of / equal to the input directory, or nested in it next to a sibling with the same name prefix"),
  "C19-remove-duplicates": ("C19", "cminx_gen_rst: for directory inputs '-r' is prepended and list(REMOVE_DUPLICATES) run over all options", "a directory input with a repeated token among the extra arguments (-e a -e b, or an extra '-r')"),
  "C20-dedent-paragraph": ("C20", "Paragraph.build_text_string dedents the text before applying the indent", "a paragraph whose every non-blank line starts with whitespace of its own"),
+ "C01r2-module-leading-blank": ("C01", "enterDocumented_module cleans header and body separately; clean_doc_lines' 'drop one leading newline' then eats an empty first body line (two cooperating sites)", "a module doccomment (#[[[ @module) whose first body line is empty"),
+ "C02r2-entry-at-endfunction": ("C02", "function/macro entries are appended when the definition is closed (endfunction/endmacro) instead of where it starts", "a function/macro whose body contains another documentable command: entries come out of source order"),
+ "C03r2-strip-cache-by-text": ("C03", "parameter-name stripping memoised in a dict keyed by the parameter text only (not by pattern/kind)", "function and macro strip patterns both set and different, a function and a macro in one file sharing a parameter name"),
+ "C05r2-file-scope-parse-arguments": ("C05", "the cmake_parse_arguments branch guarded by 'definition stack non-empty', so the call falls through to the by-name catch-all", "an undocumented cmake_parse_arguments() at file scope: KeyError include_undocumented_cmake_parse_arguments"),
+ "C06r2-recover-returns-at-eof": ("C06", "ParserErrorStrategy.recover() returns silently when the lookahead is EOF", "a bare word as the last token of the file"),
+ "C08r2-skip-before-pending-link": ("C08", "the 'skip undocumented function/macro' branch moved before the branch linking a definition to a pending member/test declaration", "include_undocumented_function/macro off + a documented member whose implementing definition is then skipped: parameters lost"),
+ "C09r2-pending-cleared-at-end": ("C09", "the pending member declaration is cleared at endfunction/endmacro instead of at its implementing definition", "a nested function/macro inside a method's body is taken as a second implementing definition"),
+ "C12r2-shallow-copy-prefix": ("C12", "document(): deepcopy -> copy of the settings: the derived default prefix leaks into the caller's settings", "several inputs in one run without an explicit prefix: later inputs are titled with the first directory's name"),
+ "C13r2-output-name-case": ("C13", "output file name built with the case-sensitive regex \\.cmake$", "a CMake file with a non-lower-case extension: Legacy.CMake -> Legacy.CMake.rst"),
+ "C14r2-sort-before-autoexclude": ("C14", "the sorted() rebinding of subdirs moved before the auto-exclusion block, which then edits a copy", "-r + auto-exclusion + a directory without .cmake holding a sub-directory with one: unreachable pages"),
+ "C15r2-exclude-only-lowercase": ("C15", "files are checked against the exclude patterns only if their name ends in lower-case .cmake", "an excluded CMake file with a mixed-case extension"),
+ "C16r2-cwd-default-argument": ("C16", "config_template(cwd=os.getcwd()) default argument: evaluated once at import", "the process changes directory between `import cminx` and main(), with a relative output directory"),
+ "C17r2-case-insensitive-sort": ("C17", "per-directory sort made case-insensitive (key=str.lower): not a total order", "two entries of one directory differing only in letter case + a different listing order"),
+ "C18r2-sort-by-splitext": ("C18", "files sorted by (stem, extension) instead of by name", "a directory with names like Foo.cmake and Foo-x.cmake: stdout page order is not the sorted name order"),
 }
 
 def parse(path):
@@ -45,8 +59,9 @@ for name, (prop, change, needs) in INFO.items():
     d = os.path.join(R, "seeded", name)
     if not os.path.isdir(d):
         continue
-    after = parse(os.path.join(R, ".logs", "seed_%s.log" % prop))
-    before = parse(os.path.join(R, ".logs", "seedbefore_%s.log" % prop))
+    r2 = "r2" if "r2-" in name else ""
+    after = parse(os.path.join(R, ".logs", "seed%s_%s.log" % (r2, prop)))
+    before = parse(os.path.join(R, ".logs", "seed%sbefore_%s.log" % (r2, prop)))
     meta = {"breaks_property": prop, "change": change, "needs_to_manifest": needs,
             "origin": "written by an independent sub-agent that saw only the property text and its own scratch worktree",
             "confirmed_by_me": {"existing_69_tests_with_change": (after or before or {}).get("tests_with_change"),
